@@ -99,4 +99,92 @@ def parseFloat (s : List Char) : Option UInt64 :=
         if (d.exp : Int) + digits < -400 then some (if d.neg then 0x8000000000000000 else 0)
         else roundToBits d.neg d.mant (10 ^ (-d.exp).toNat)
 
+
+/-! ## Reference for strconv.FormatFloat(x, 'f', -1, 64): the shortest decimal that reads back
+as `x`, the closest to `x` among those of that length, written without exponent. -/
+
+/-- |x| as a fraction, for a finite bit pattern. -/
+def magnitude (bits : UInt64) : Nat × Nat :=
+  let e := ((bits >>> 52) &&& 0x7FF).toNat
+  let f := (bits &&& 0xFFFFFFFFFFFFF).toNat
+  let (m, ex) : Nat × Int := if e == 0 then (f, -1074) else (f + 2 ^ 52, (e : Int) - 1075)
+  if ex ≥ 0 then (m * 2 ^ ex.toNat, 1) else (m, 2 ^ (-ex).toNat)
+
+/-- floor(log10 (n/d)) for n, d > 0. -/
+def log10Floor (n d : Nat) : Int :=
+  let est : Int := (((Nat.log2 n : Int) - (Nat.log2 d : Int)) * 30103) / 100000
+  let ge (k : Int) : Bool := if k ≥ 0 then decide (d * 10 ^ k.toNat ≤ n) else decide (d ≤ n * 10 ^ (-k).toNat)
+  -- largest k with 10^k ≤ n/d, searched around the estimate
+  let cands : List Int := [est + 2, est + 1, est, est - 1, est - 2]
+  (cands.find? ge).getD (est - 3)
+
+def natDigits (n : Nat) : List Char := (toString n).toList
+
+/-- digits · 10^q written in plain positional notation. -/
+def positional (neg : Bool) (c : Nat) (q : Int) : String :=
+  let ds := natDigits c
+  let body : List Char :=
+    if q ≥ 0 then ds ++ List.replicate q.toNat '0'
+    else
+      let k := (-q).toNat
+      let (ip, fp) := if ds.length > k then (ds.take (ds.length - k), ds.drop (ds.length - k))
+                      else (['0'], List.replicate (k - ds.length) '0' ++ ds)
+      let fp := (fp.reverse.dropWhile (· == '0')).reverse
+      if fp.isEmpty then ip else ip ++ ['.'] ++ fp
+  String.ofList ((if neg then ['-'] else []) ++ body)
+
+/-- Shortest digits: (c, q) with |x| read back from c·10^q, c without trailing zeros. -/
+def shortestDigits (mag : UInt64) : Option (Nat × Int) :=
+  let (n, d) := magnitude mag
+  let k := log10Floor n d
+  let attempt (p : Nat) : Option (Nat × Int) :=
+    let q : Int := k - (p : Int) + 1
+    let (tn, td) := if q ≥ 0 then (n, d * 10 ^ q.toNat) else (n * 10 ^ (-q).toNat, d)
+    let lo := tn / td
+    let cands := if tn % td == 0 then [lo] else
+      (if 2 * (tn % td) ≤ td then [lo, lo + 1] else [lo + 1, lo])   -- closest first
+    let ok (c : Nat) : Bool :=
+      c != 0 && (if q ≥ 0 then roundToBits false (c * 10 ^ q.toNat) 1 else roundToBits false c (10 ^ (-q).toNat)) == some mag
+    (cands.find? ok).map fun c => (c, q)
+  (List.range 17).findSome? fun i => attempt (i + 1)
+
+def stripZeros : Nat → Nat → Int → Nat × Int
+  | 0, c, q => (c, q)
+  | fuel + 1, c, q => if c != 0 && c % 10 == 0 then stripZeros fuel (c / 10) (q + 1) else (c, q)
+
+def formatShortest (bits : UInt64) : String :=
+  let neg := bits >>> 63 == 1
+  let mag := bits &&& 0x7FFFFFFFFFFFFFFF
+  if mag == 0 then (if neg then "-0" else "0")
+  else if mag ≥ 0x7FF0000000000000 then (if mag == 0x7FF0000000000000 then (if neg then "-Inf" else "+Inf") else "NaN")
+  else
+    match shortestDigits mag with
+    | some (c, q) => positional neg c q
+    | none => "?"
+
+/-- encoding/json's float64 encoder: 'f' unless |x| < 1e-6 or ≥ 1e21, then 'e' with a
+two-digit negative exponent `e-0X` cleaned to `e-X`. -/
+def formatJSON (bits : UInt64) : String :=
+  let neg := bits >>> 63 == 1
+  let mag := bits &&& 0x7FFFFFFFFFFFFFFF
+  if mag == 0 then (if neg then "-0" else "0")
+  else if mag ≥ 0x7FF0000000000000 then "NaN"
+  else
+    match shortestDigits mag with
+    | none => "?"
+    | some (c0, q0) =>
+        let (c, q) := stripZeros 400 c0 q0
+        let ds := natDigits c
+        let e10 : Int := q + ds.length - 1          -- decimal exponent of the first digit
+        if e10 < -6 || e10 ≥ 21 then
+          let mant := match ds with
+            | [] => []
+            | [a] => [a]
+            | a :: rest => a :: '.' :: rest
+          let ea := e10.natAbs
+          let expDigits := if e10 < 0 then (if ea < 10 then natDigits ea else natDigits ea)
+                           else (if ea < 10 then '0' :: natDigits ea else natDigits ea)
+          String.ofList ((if neg then ['-'] else []) ++ mant ++ ['e', if e10 < 0 then '-' else '+'] ++ expDigits)
+        else positional neg c q
+
 end GeomVerif.ParseFloat
